@@ -57,6 +57,7 @@ pub fn is_alloc_feature_op(op: &Op) -> bool {
         Fold => op.args[2] % 4 == 3,
         Zip => op.args[3] % 10 == 9,
         ItCollect => op.args[1] % 4 == 2,
+        WideOp => op.args[0] % 8 >= 5,
         _ => false,
     }
 }
@@ -111,7 +112,7 @@ fn run<E: Elem>(t: &Trace, record: bool) -> RunResult {
             // an element with a heap payload that an alloc-feature operation loses leaves a block
             // allocated "once all values are gone": judged right after such an operation only
             // (leaks by other operations are not C16's business)
-            cx.checks.conserve = matches!(E::KIND, ElemKind::Tr | ElemKind::Al) && is_alloc_feature_op(op);
+            cx.checks.conserve = matches!(E::KIND, ElemKind::Tr | ElemKind::Al) && is_alloc_feature_op(op) && !op.faults.iter().any(|f| f.0 == crate::ledger::Seam::Drop);
         }
         let af = ALLOC_FAIL_LAST.load(std::sync::atomic::Ordering::Relaxed);
         let af_here = af != -2 && i + 1 == t.ops.len();
